@@ -30,7 +30,7 @@ class Ref:
     def remove_at(self, p):
         del self.L[p]
         for it in self.its.values():
-            if p < it[0]:
+            if it[0] is not None and p < it[0]:
                 if p == it[0] - 1:
                     it[1] = False
                 it[0] -= 1
@@ -383,7 +383,7 @@ def judge(ops, res):
     a history that leaves the contracts (possible only for shrink candidates) is reported as ('contract',)"""
     try:
         return judge1(ops, res)
-    except (Contract, IndexError, KeyError):
+    except (Contract, IndexError, KeyError, TypeError):
         return ("contract",)
 
 
